@@ -456,6 +456,9 @@ def run(ctx):
     ctx.assumptions += ["helper range theorem: the result is not the sentinel (some valid input carries weight); exact range "
                         "needs sum(weights) == 1 (c17_wavg_range_sum1), otherwise only the factor statement holds"]
     ok = ctx.regen(["gen_country_table"])
+    if ok:
+        import gen_country_table
+        ok = gen_country_table.ensure_built(ctx)
     ctx.check_props()
     ctx.log("props checked")
     header, body = read_text_table(lib.REPO)
